@@ -15,6 +15,11 @@ func Generate(prop string, seed uint64) *Scenario {
 	switch prop {
 	case "C12", "C05", "C13", "C07":
 		return GenUciSession(prop, seed)
+	case "C14":
+		if seed%4 == 3 {
+			return GenUciSession(prop, seed)
+		}
+		return GenApiScript(prop, seed)
 	}
 	return GenUciSession(prop, seed)
 }
@@ -27,11 +32,17 @@ func RunScenario(t *testing.T, sc *Scenario) *RunResult {
 		res.Harness = err.Error()
 		return res
 	}
-	func() {
+	expectDeadlock := false
+	// every scenario runs as a subtest: a failure the testing package raises
+	// inside the bubble (e.g. "race detected during execution of test") must
+	// not end the worker's loop over seeds
+	t.Run(fmt.Sprintf("seed%d", sc.Seed), func(t *testing.T) {
 		defer func() {
 			if r := recover(); r != nil {
 				msg := fmt.Sprint(r)
-				if strings.Contains(msg, "deadlock") {
+				if strings.Contains(msg, "deadlock") && expectDeadlock {
+					// the controller was reported as blocked; its goroutine stays behind
+				} else if strings.Contains(msg, "deadlock") {
 					buf := make([]byte, 1<<16)
 					n := runtime.Stack(buf, true)
 					res.addViolation(sc.Prop, "bubble_deadlock", msg+" | blocked: "+blockedEngineFrames(string(buf[:n])))
@@ -45,11 +56,15 @@ func RunScenario(t *testing.T, sc *Scenario) *RunResult {
 			case "uci":
 				out := RunUciScript(sc)
 				finishUci(sc, out, res)
+			case "api":
+				out := RunApiScript(sc)
+				finishApi(sc, out, res)
+				expectDeadlock = out.Blocked != nil
 			default:
 				res.Harness = "unknown scenario kind " + sc.Kind
 			}
 		})
-	}()
+	})
 	res.WallMs = time.Since(start).Milliseconds()
 	return res
 }
@@ -85,11 +100,49 @@ func finishUci(sc *Scenario, out *UciRunOut, res *RunResult) {
 	}
 }
 
+func finishApi(sc *Scenario, out *ApiRunOut, res *RunResult) {
+	sim := out.Sim
+	if res.Faults == nil {
+		res.Faults = map[string]int{}
+	}
+	CheckApi(sc, out, res)
+	checkSimCommon(sc, sim, res)
+	if out.Blocked != nil {
+		// the run was aborted on purpose
+		if res.Harness == "slot budget exhausted" {
+			res.Harness = ""
+		}
+	}
+	for k, v := range out.Faults {
+		res.Faults[k] += v
+	}
+	for k, v := range out.Probes {
+		for i := 0; i < v; i++ {
+			res.probe(k)
+		}
+	}
+	if sim.TimerFires-len(sim.StaleFires) > 0 {
+		res.Faults["F2_timeout_mid_search"] += sim.TimerFires - len(sim.StaleFires)
+	}
+	res.Signature = fmt.Sprintf("%016x", out.SigHash)
+	res.NonTrivial = len(res.Faults) > 0
+	res.TraceHash = sim.TraceHash()
+	res.SimNs = sim.Now()
+	res.Yields = sim.Yields
+	res.count("results", int64(len(out.Results)))
+	if len(res.Violations) > 0 || KeepHistory {
+		b, _ := json.Marshal(map[string]interface{}{"calls": out.Calls, "results": out.Results, "final": out.Final})
+		res.Sample = b
+	}
+}
+
 // KeepHistory makes every run carry its history (debugging / samples).
 var KeepHistory = false
 
 // checkSimCommon evaluates the invariants every engine simulation carries:
 // the C07 terminal-node monitor and harness self-checks.
+//
+//go:norace
 func checkSimCommon(sc *Scenario, sim *Sim, res *RunResult) {
 	if sim.Reentry {
 		res.Harness = "slot allocator re-entered: one-goroutine-per-instant invariant broken"
